@@ -441,6 +441,11 @@ func (g *gen) singleOp(sp opSpec) *vcase {
 			}
 		default:
 			v := g.prim(h)
+			// RIGHT with a length of hundreds of megabytes makes the real VM allocate the result before it finds
+			// the length out of range (reported); kept out of the quick tier (shared machine), in the thorough one
+			for !heavyMatrix && sp.op == opcode.RIGHT && h == 'n' && v.kind == 'i' && v.i.IsInt64() && v.i.Int64() >= 1<<26 && v.i.Int64() < 1<<31 {
+				v = g.prim(h)
+			}
 			if asArgs {
 				c.args = append(c.args, v)
 			} else {
